@@ -50,12 +50,14 @@ ASSUMPTIONS = [
     'legitimately advance by one handle are only used on ranges of <= 64 handles',
 ]
 MIN_EVENTS = {
-    'quick': {'tree_checks': 1500, 'read_checks': 1500, 'write_checks': 300, 'notif_api_calls': 600,
-              'wire_notifications': 200, 'wire_indications': 150, 'confirm_order_checks': 150,
-              'term_procedures': 400, 'wire_att_pdus': 20000},
-    'thorough': {'tree_checks': 20000, 'read_checks': 20000, 'write_checks': 4000, 'notif_api_calls': 8000,
-                 'wire_notifications': 3000, 'wire_indications': 2000, 'confirm_order_checks': 2000,
-                 'term_procedures': 5000, 'wire_att_pdus': 300000},
+    'quick': {'tree_checks': 3000, 'read_checks': 3500, 'read_checks_long': 800, 'write_checks': 600,
+              'notif_api_calls': 800, 'wire_notifications': 400, 'wire_indications': 300,
+              'confirm_order_checks': 300, 'truncation_checks': 700, 'callback_checks': 700,
+              'term_procedures': 600, 'wire_att_pdus': 40000},
+    'thorough': {'tree_checks': 90000, 'read_checks': 100000, 'read_checks_long': 24000, 'write_checks': 18000,
+                 'notif_api_calls': 24000, 'wire_notifications': 12000, 'wire_indications': 9000,
+                 'confirm_order_checks': 9000, 'truncation_checks': 21000, 'callback_checks': 21000,
+                 'term_procedures': 18000, 'wire_att_pdus': 1200000},
 }
 CASE_TIMEOUT = 600
 
@@ -70,9 +72,9 @@ REQUEST_LIMIT = 1000
 
 def plan(tier, seed):
     cases = []
-    n_db = 300 if tier == 'quick' else 4500
-    n_notif = 176 if tier == 'quick' else 2600
-    n_term = 8 if tier == 'quick' else 100
+    n_db = 300 if tier == 'quick' else 9000
+    n_notif = 176 if tier == 'quick' else 5200
+    n_term = 8 if tier == 'quick' else 240
     for i in range(n_db):
         cases.append({'kind': 'db', 'seed': seed * 1000003 + i})
     for i in range(n_notif):
@@ -1195,9 +1197,9 @@ async def run_case(case, r: R):
         await term_case(case, r)
 
 
-LEVEL_TEXT = ('~300 (quick) / ~4500 (thorough) generated databases x MTU preferences x optional enhanced bearers are '
+LEVEL_TEXT = ('~300 (quick) / ~9000 (thorough) generated databases x MTU preferences x optional enhanced bearers are '
               'discovered, read and written through a real bumble client against a real bumble server on the virtual '
-              'link and compared with an independently computed handle layout and declaration values; ~180 / ~2600 '
+              'link and compared with an independently computed handle layout and declaration values; ~180 / ~5200 '
               'multi-client subscription scenarios call every notify/indicate API form and are judged on the tapped '
               'wire (opcode, recipients, truncation to the wire-derived ATT_MTU-3, confirmation before return) and on '
               'client callbacks; every discovery procedure is run against 13 non-progressing adversarial response '
